@@ -63,6 +63,28 @@ CLAIMED.update({
              note='Trusted: hand model Geom/Tri.v + exact differential tie; oracle props/trioracle.py (exact Fractions) is exploration-level.',
              ref='DESIGN.md section 7 C03'),
 })
+CLAIMED.update({
+ 'C04': dict(technique='Coq model of the mesh builders compared with the implementation (faces identical, points within 1e-9); closed/oriented/outward oracle on every built mesh incl. threads and viewer edges; index lemma for side quads proved; for-all closure theorem in progress',
+             text='linear_extrude, cylinder, loft, rotate_extrude and sweep are mirrored in coq/Geom/Dim3.v (on top of the triangulation and look_at models) and must reproduce the implementation mesh for every generated profile/path/angle; the thread mesh generator is mirrored in coq/Parts/Thread.v and compared through C14/C16. Every built mesh (also thread meshes via the hook and viewer edge cylinders) is checked on the implementation output: indices in range, >= 3 distinct vertices per face, every directed edge in exactly one face and its reverse in exactly one other, positive volume under the clockwise-outward convention. Proved so far: side quads have four distinct in-range vertices. The edge-count closure theorem for all n/segments/steps (DESIGN.md 6.1) is not yet machine-checked, so the for-all claim currently rests on the model tie plus the oracle.',
+             note='Trusted: hand model Geom/Dim3.v + differential tie; oracle props/meshoracle.py (exploration). Sweeps may self-intersect: volume sign judged for the other builders only.',
+             ref='DESIGN.md section 7 C04'),
+ 'C05': dict(technique='Coq theorems for ring placement of linear_extrude/loft and face-preservation of the transform methods on the Dim3 model; differential run; ring/cap oracles with exact rational cap validation',
+             text='coq/Props/C05.v: linear_extrude and loft place the given profiles unchanged at z = 0 and z = height (all profiles the triangulator accepts); Polyhedron translate/rotate/apply_matrix keep faces and point count (point maps are C09/C10/C11). Tie: Dim3 model (rotate_extrude rings, sweep frames through look_at_matrix_lh, twists) reproduces the implementation points within 1e-9 and faces exactly. Oracles on implementation output: revolve copy k at k*degrees/segments with radius and height kept; sweep ring k a rigid copy in the plane perpendicular to the local chord; volume of a linear extrusion = area x height; every end cap an exact valid triangulation of the profile it closes, for paths starting along +-X, +-Y, +-Z and oblique and for all revolve angles.',
+             note='Trusted: hand model + differential tie; oracles are exploration-level; the inherited C03 near-collinear finding applies to caps.',
+             ref='DESIGN.md section 7 C05'),
+ 'C14': dict(technique='Coq theorems on the part models: centred tree = translate([0,0,-H/2]) of the un-centred tree for all five builders and all arguments; semantic lemma (flatten) by nested induction; models tied by tree comparison in Coq incl. thread meshes',
+             text='coq/Props/C14.v: for threaded_rod, tap, hex_bolt, hex_nut and external_cylinder_chamfer and all other arguments, f(..., true) = option_map (translate [0,0,-H/2]) (f(..., false)) with H the total height; C14_translate_moves_every_subpart: under the placement semantics (Parts/Sem.v) a translate on top moves every placed leaf by exactly that translation and changes neither leaves nor nesting (induction over trees, matrix associativity). Tie: the models (incl. the thread mesh generator, rod, hex head, chamfer cutters; thread table regenerated) are compared as whole trees with the implementation in Coq, each case with both centre settings; an independent numerical flattening oracle compares centred and un-centred implementation trees leaf by leaf.',
+             note='Trusted: hand models Parts/Thread.v + tree tie; placement semantics Parts/Sem.v (OpenSCAD transform conventions); stdlib real axioms.',
+             ref='DESIGN.md section 7 C14'),
+ 'C15': dict(technique='Coq theorems over R on the pipe models (shape, through-hole inequalities, hollow = solid + bore, curved wrapper cancels); models tied by tree comparison; structural oracles',
+             text='coq/Props/C15.v: Pipe::straight/tapered are Difference[solid variant; translate(dz)[bore cylinder of diameter od-2*wall]] for all od > 2*wall; the bore z-extent strictly contains the body for either centre setting (dz = 0 centred, -1 / -0.001 otherwise); curved and curved_solid share one wrapper whose two translations cancel, so the cross-section starts centred on the origin. Tie: tree comparison model vs implementation in Coq on grids of od/wall/length/degrees/radius/$fn/centre incl. radius 0 and 0.005; oracles re-derive the same facts from the implementation trees and compare every hollow pipe with its *_solid twin.',
+             note='Trusted: hand model + tree tie; stdlib real axioms.',
+             ref='DESIGN.md section 7 C15'),
+ 'C17': dict(technique='Coq theorem: polar_array unrolls to the seed plus one unmodified copy per k under rotate([0,0,k*(-degrees)/steps]) (induction over the count); chamfer cutter structure and the flip = mirror-about-mid-height lemma; tree tie; flattening oracle',
+             text='coq/Props/C17.v: for every subtree s that is not itself a two-child union, every count and degrees <= 360, polar_array returns a left-deep union that unrolls to s followed by rot_copy s (k*(-degrees)/steps), k = 0..count-1, steps = count (full circle) or count-1; the step algebra; external_cylinder_chamfer = union of the bottom cutter and the same cutter under translate(0,0,h).rotate([180,0,0]); that flip maps (x,y,z) to (x,-y,h-z), i.e. the mirror image about mid-height up to y -> -y, which a full revolution about Z does not see. Tie: tree comparison in Coq; oracle: placements of the flattened implementation union are exactly Rz(-k*step) of unmodified copies.',
+             note='Trusted: hand model + tree tie; the invisibility of y -> -y for a full solid of revolution is stated, not formalised as a point-set theorem.',
+             ref='DESIGN.md section 7 C17'),
+})
 NOT_YET = {}
 def main():
     props = [json.loads(l)['id'] for l in open('properties.jsonl')]
